@@ -41,7 +41,7 @@ pub struct ObsOut {
     pub wire_ids: Vec<u32>,
 }
 
-#[derive(Clone, Copy, Debug, PartialEq, Eq, PartialOrd, Ord)]
+#[derive(Clone, Copy, Debug, PartialEq, Eq, PartialOrd, Ord, serde::Serialize, serde::Deserialize)]
 pub enum HostKind {
     Direct,
     StreamPoll,
@@ -179,7 +179,7 @@ impl Host {
     fn core_event(&mut self, ev: Event) -> ObsOut {
         let mut out = ObsOut::default();
         match self.inner.as_mut().unwrap() {
-            Inner::Core { core, handles, log_len, .. } => {
+            Inner::Core { core, handles, log_len, legacy } => {
                 let sent = ev.clone();
                 match mc_kit::catch(|| core.process_event(ev)) {
                     Ok(effects) => {
@@ -194,6 +194,14 @@ impl Host {
                             out.events.remove(0);
                         } else {
                             out.panic = Some("shell event was not applied first".into());
+                        }
+                        if *legacy {
+                            // the legacy reading of a trigger is `StartLegacy`; the reference says `Start`
+                            for e in out.events.iter_mut() {
+                                if let Event::StartLegacy(q) = e {
+                                    *e = Event::Start(q.clone());
+                                }
+                            }
                         }
                         let s = core.verif_stats();
                         out.queues = Some((s.1, s.2, s.3, s.4));
